@@ -285,7 +285,7 @@ async def drive_ap2(history):
 
 # deeper call-site scenarios: the real transport-facing classes under the keep-alive ------------
 
-async def drive_ap2_deep(history):
+async def drive_ap2_deep(history, encrypted=False):
     """AP2Session.start_keep_alive on top of the REAL RtspSession and HttpConnection (fake
     transport).  Device behaviour per keep-alive: O = answers 200, o = answers 200 and the
     network delivers the answer in two reads, E = answers 500 (an error status), F = stays silent.  The unchanged code counts E and F as failed keep-alives."""
@@ -326,6 +326,20 @@ async def drive_ap2_deep(history):
     session.connection = conn
     session.rtsp = RtspSession(conn)
     session.start_keep_alive(sp)
+    cut = 11
+    dev = None
+    if encrypted:
+        # the control channel as it is after pair-verify: HAP framing in both directions; the device
+        # side is an independent HAPSession holding the mirrored keys; an answer that the network
+        # splits is split inside the 2-byte length prefix of its encrypted block
+        from pyatv.auth.hap_session import HAPSession
+        k1, k2 = bytes(range(32)), bytes(range(32, 64))
+        mine, dev = HAPSession(), HAPSession()
+        mine.enable(k1, k2)
+        dev.enable(k2, k1)
+        conn.receive_processor = mine.decrypt
+        conn.send_processor = mine.encrypt
+        cut = 1
     raw_received = conn.data_received
 
     def deliver(data):
@@ -348,22 +362,25 @@ async def drive_ap2_deep(history):
         req = reqs[seen]
         seen += 1
         trace.append("Send")
+        if dev is not None:
+            req = dev.decrypt(req)
+        wire = (lambda b: dev.encrypt(b)) if dev is not None else (lambda b: b)
         cseq = None
         for line in req.split(b"\r\n"):
             if line.lower().startswith(b"cseq:"):
                 cseq = line.split(b":", 1)[1].strip()
         if ev == "O":
-            conn.data_received(b"RTSP/1.0 200 OK\r\nCSeq: " + cseq + b"\r\nContent-Length: 0\r\n\r\n")
+            conn.data_received(wire(b"RTSP/1.0 200 OK\r\nCSeq: " + cseq + b"\r\nContent-Length: 0\r\n\r\n"))
             await asyncio.sleep(0)
         elif ev == "o":
             # the same answer, delivered by the network in two reads
-            resp = b"RTSP/1.0 200 OK\r\nCSeq: " + cseq + b"\r\nContent-Length: 0\r\n\r\n"
-            conn.data_received(resp[:11])
+            resp = wire(b"RTSP/1.0 200 OK\r\nCSeq: " + cseq + b"\r\nContent-Length: 0\r\n\r\n")
+            conn.data_received(resp[:cut])
             await asyncio.sleep(0.01)
-            conn.data_received(resp[11:])
+            conn.data_received(resp[cut:])
             await asyncio.sleep(0)
         elif ev == "E":
-            conn.data_received(b"RTSP/1.0 500 Internal Server Error\r\nCSeq: " + cseq + b"\r\nContent-Length: 0\r\n\r\n")
+            conn.data_received(wire(b"RTSP/1.0 500 Internal Server Error\r\nCSeq: " + cseq + b"\r\nContent-Length: 0\r\n\r\n"))
             await asyncio.sleep(0)
         else:
             await asyncio.sleep(15)     # HTTP request timeout is 10 s
@@ -540,19 +557,22 @@ def callsites(ctx, cases_mrp, cases_ap2):
             mh = hist.replace("E", "F").replace("o", "O")
             if model_py(r, mh[:-1]):
                 continue
-            trace = vloop.run(drive_ap2_deep, hist)
-            ctx.case(("ap2-deep", hist), nontrivial=True, sample={"site": "AP2Session keep-alive over real RtspSession/HttpConnection", "device": hist, "trace": trace} if hist == "OEF"[:n] else None)
-            ctx.count("ap2-deep")
-            core = [t for t in trace if t in ("Send", "Failure", "Finish")]
-            errs = [e for e in oracle(r, mh, core, True) if e != "finish-not-once-on-cancel"]
-            if "ActivityAfterFailure" in trace:
-                errs.append("activity-after-failure")
-            if any(t.startswith("ProtocolRaised") for t in trace):
-                errs.append("well-formed-answer-kills-connection")
-            for e in errs:
-                ctx.violation("C19:ap2-callsite:" + e, "AP2 keep-alive over the real RTSP/HTTP classes: " + e,
-                              {"site": "ap2-deep", "device": hist, "impl_trace": trace})
-            cases_mrp.append((r, mh, core, "Failure" in trace))
+            for enc in (False, True):
+                if enc and "o" not in hist:
+                    continue
+                trace = vloop.run(drive_ap2_deep, hist, enc)
+                ctx.case(("ap2-deep", hist, enc), nontrivial=True, sample={"site": "AP2Session keep-alive over real RtspSession/HttpConnection", "device": hist, "encrypted": enc, "trace": trace} if hist == "OEF"[:n] else None)
+                ctx.count("ap2-deep" + ("-encrypted" if enc else ""))
+                core = [t for t in trace if t in ("Send", "Failure", "Finish")]
+                errs = [e for e in oracle(r, mh, core, True) if e != "finish-not-once-on-cancel"]
+                if "ActivityAfterFailure" in trace:
+                    errs.append("activity-after-failure")
+                if any(t.startswith("ProtocolRaised") for t in trace):
+                    errs.append("well-formed-answer-kills-connection")
+                for e in errs:
+                    ctx.violation("C19:ap2-callsite:" + e, "AP2 keep-alive over the real RTSP/HTTP classes: " + e,
+                                  {"site": "ap2-deep", "device": hist, "encrypted": enc, "impl_trace": trace})
+                cases_mrp.append((r, mh, core, "Failure" in trace))
     for n in range(1, maxlen):
         for hist in itertools.product("OF", repeat=n):
             hist = "".join(hist)
@@ -771,7 +791,7 @@ def replay(ctx, path):
         print("history=%s trace=%s errors=%s" % (rp["history"], trace, errs))
         return 1 if errs else 0
     elif site == "ap2-deep":
-        trace = vloop.run(drive_ap2_deep, rp["device"])
+        trace = vloop.run(drive_ap2_deep, rp["device"], bool(rp.get("encrypted")))
         hist = rp["device"].replace("E", "F").replace("o", "O")
     elif site == "mrp-deep":
         trace, reports, closed = vloop.run(drive_mrp_deep, rp["device"])
